@@ -3,6 +3,7 @@
 # Confirms a seeded change independently (applies, demo passes on clean tree / fails with the change, pinned tests still pass),
 # runs the quick tier of the given checks against it, and stores it as /verif/seeded/<seed-id>/ with meta.json.
 set -u
+ROOT="$(cd "$(dirname "$0")/.." && pwd)"
 SRC="$(realpath "$1")"; SID="$2"; PROP="$3"; shift 3; CHECKS="$PROP $*"
 W=$(mktemp -d /tmp/pjrpc-seedchk.XXXXXX); rmdir "$W"
 git -C /repo worktree add --detach -q "$W" HEAD || exit 2
@@ -14,7 +15,7 @@ if ! git -C "$W" apply "$SRC/patch.diff"; then echo "$SID: PATCH DOES NOT APPLY"
 base=$(/tmp/seedtools/run_baseline.sh "$W" | head -1)
 caught=""; missed=""
 for id in $CHECKS; do
-  out=$(VERIF_EVIDENCE_DIR="$W/.verif-evidence" VERIF_REPLAY_DIR="$W/.verif-replays" PJRPC_REPO="$W" /verif/check "$id" --tier quick 2>&1); rc=$?
+  out=$(VERIF_EVIDENCE_DIR="$W/.verif-evidence" VERIF_REPLAY_DIR="$W/.verif-replays" PJRPC_REPO="$W" "$ROOT/check" "$id" --tier quick 2>&1); rc=$?
   if [ $rc = 1 ]; then caught="$caught $id"; bucket=$(echo "$out" | grep -m1 '  bucket' | cut -c1-200); else missed="$missed $id($rc)"; fi
 done
 echo "$SID: demo clean=$clean_rc mutated=$mut_rc | $base | caught:$caught | not caught:$missed"
